@@ -19,7 +19,6 @@ MUTATORS = {"append", "extend", "insert", "pop", "remove", "clear", "sort", "rev
             "setdefault", "popitem", "fill", "put", "itemset", "resize", "partition", "setfield", "__setitem__"}
 REFLECT = {"setattr", "delattr", "__setattr__", "__dict__", "model_construct", "model_validate", "parse_obj", "construct",
            "object.__setattr__", "vars", "globals", "exec", "eval"}
-BASE_FIELDS_PER_RUN = {"_task", "_population", "_best_agent", "_worst_agent", "_current_cycle", "_errors", "_error_diffs"}
 BASE_INPUT_FIELDS = {"_config", "_debug", "_mode", "_workers", "EPS"}
 
 
@@ -399,6 +398,8 @@ class Flow:
     def __init__(self, methods):
         self.methods = methods; self.stale = set(); self.cfg_writes = []; self.task_writes = []; self.entropy = []
         self.reads_fitness = False; self.reads_direction = False
+        self.quiet = False         # inside a method owned by the base class: its fitness / direction reads are the framework's, not the optimizer's
+        self.base_nodes = set()    # id() of the FunctionDef nodes that belong to OptimizationAbstract
         self.aliases = {}          # local name -> "_config" / "_task": bound to a sub-object of the caller's object without a copy
 
     def alias_root(self, n):
@@ -422,8 +423,10 @@ class Flow:
             if isinstance(n, ast.Call):
                 f = n.func
                 if is_self_attr(f) and f.attr in self.methods and depth < 8:
+                    q = self.quiet; self.quiet = id(self.methods[f.attr]) in self.base_nodes
                     defs = defs | (self.block(self.methods[f.attr].body, set(defs), {}, depth + 1) - defs) if f.attr != "_init_agent" else defs
                     if f.attr == "_init_agent": self.block(self.methods["_init_agent"].body, set(defs), {}, depth + 1)
+                    self.quiet = q
                 elif isinstance(f, ast.Name) and f.id in fns and depth < 8:
                     self.block(fns[f.id].body, set(defs), dict(fns), depth + 1)
                 if isinstance(f, ast.Attribute) and f.attr in MUTATORS:
@@ -438,9 +441,9 @@ class Flow:
                     self.entropy.append(src)
             if isinstance(n, ast.Attribute) and isinstance(n.ctx, ast.Load):
                 if is_self_attr(n): self.note_use(n.attr, defs)
-                if n.attr == "fitness": self.reads_fitness = True
-                if n.attr == "minmax": self.reads_direction = True
-            if isinstance(n, ast.Name) and n.id in ("calculate_fitness", "average_fitness", "TaskType"):
+                if n.attr == "fitness" and not self.quiet: self.reads_fitness = True
+                if n.attr == "minmax" and not self.quiet: self.reads_direction = True
+            if isinstance(n, ast.Name) and n.id in ("calculate_fitness", "average_fitness", "TaskType") and not self.quiet:
                 if n.id == "TaskType": self.reads_direction = True
                 else: self.reads_fitness = True
         return defs
@@ -471,7 +474,7 @@ class Flow:
                     for t in st.targets:
                         if isinstance(t, ast.Name): self.aliases.pop(t.id, None)
                 for t in st.targets:
-                    for tt in (t.elts if isinstance(t, (ast.Tuple, ast.List)) else [t]):
+                    for tt in flat_targets(t):
                         d = self.store(tt, defs)
                         if d: defs = defs | {d}
             elif isinstance(st, ast.AnnAssign):
@@ -514,43 +517,71 @@ class Flow:
 BASE_METHODS: set = set()
 
 
-def fields(cls: ast.ClassDef, helper_entropy: dict) -> dict:
-    methods = {n.name: n for n in cls.body if isinstance(n, ast.FunctionDef)}
+def flat_targets(t):
+    """assignment targets with nested tuples / lists flattened: ((self.a,), (self.b,)) -> self.a, self.b"""
+    if isinstance(t, (ast.Tuple, ast.List)):
+        out = []
+        for e in t.elts: out += flat_targets(e)
+        return out
+    if isinstance(t, ast.Starred): return flat_targets(t.value)
+    return [t]
+
+
+def fields(cls: ast.ClassDef, helper_entropy: dict, base_cls: ast.ClassDef | None = None) -> dict:
+    """def-use facts along the run path.  The run path is the base class's optimize() itself with the optimizer's own hooks and
+    helper methods inlined at their call sites (base methods the optimizer does not override are inlined too), so that which base
+    fields are assigned before which hook is DERIVED from abstract.py, not assumed; the loop body is walked twice."""
+    sub = {n.name: n for n in cls.body if isinstance(n, ast.FunctionDef)}
+    base = {n.name: n for n in base_cls.body if isinstance(n, ast.FunctionDef)} if base_cls is not None else {}
+    methods = {**base, **sub}
     fl = Flow(methods)
     fl.base_methods = BASE_METHODS
+    fl.base_nodes = {id(n) for k, n in base.items() if k not in sub}
     ctor_fields, other_stores = set(), set()
-    for name, m in methods.items():
-        for n in ast.walk(m):
-            if isinstance(n, (ast.Assign, ast.AnnAssign, ast.AugAssign)):
-                ts = n.targets if isinstance(n, ast.Assign) else [n.target]
-                for t in ts:
-                    for tt in (t.elts if isinstance(t, (ast.Tuple, ast.List)) else [t]):
-                        a = self_root(tt)
-                        if a: (ctor_fields if name == "__init__" else other_stores).add(a)
-            if isinstance(n, ast.Call) and isinstance(n.func, ast.Attribute) and n.func.attr in MUTATORS:
-                a = self_root(n.func.value)
-                if a and name != "__init__": other_stores.add(a)
+    for owner in (base, sub):
+        for name, m in owner.items():
+            if owner is base and name in sub and name != "__init__": continue            # overridden: the base version does not run
+            for n in ast.walk(m):
+                if isinstance(n, (ast.Assign, ast.AnnAssign, ast.AugAssign)):
+                    ts = n.targets if isinstance(n, ast.Assign) else [n.target]
+                    for t in ts:
+                        for tt in flat_targets(t):
+                            a = self_root(tt)
+                            if a: (ctor_fields if name == "__init__" else other_stores).add(a)
+                if isinstance(n, ast.Call) and isinstance(n.func, ast.Attribute) and n.func.attr in MUTATORS:
+                    a = self_root(n.func.value)
+                    if a and name != "__init__": other_stores.add(a)
     constants = ctor_fields - other_stores
-    defs = set(BASE_FIELDS_PER_RUN) | constants
-    for hook in ("before_initialization", "_init_population"):
-        if hook in methods: defs = fl.block(methods[hook].body, set(defs), {}, 0)
-    if "after_initialization" in methods: defs = fl.block(methods["after_initialization"].body, set(defs), {}, 0)
-    if "optimization_step" in methods:
-        d1 = fl.block(methods["optimization_step"].body, set(defs), {}, 0)
-        fl.block(methods["optimization_step"].body, set(d1), {}, 0)
+    opt = base.get("optimize") if "optimize" not in sub else None
+    loop = next((st for st in (opt.body if opt else []) if isinstance(st, ast.While)), None)
+    if opt is not None and loop is not None:
+        fl.quiet = True
+        k = opt.body.index(loop)
+        d0 = fl.block(opt.body[:k], set(constants), {}, 0)
+        d1 = fl.block(loop.body, set(d0), {}, 0)
+        d2 = fl.block(loop.body, set(d1), {}, 0)
+        fl.block(opt.body[k + 1:], set(d2), {}, 0)
+        fl.quiet = False
+    else:
+        # no recognisable optimize() in the base class (or the optimizer overrides it): nothing is known to be assigned per run
+        fl.stale.add("optimize() not analysable")
+        defs = set(constants)
+        for hook in ("before_initialization", "_init_population", "after_initialization", "optimization_step"):
+            if hook in methods: defs = fl.block(methods[hook].body, set(defs), {}, 0)
     # entropy reached through helpers
-    for m in methods.values():
+    for mname, m in methods.items():
+        if mname in base and mname not in sub and mname in ("set_config_parameters",): continue
         for n in ast.walk(m):
             if isinstance(n, ast.Call) and isinstance(n.func, ast.Name) and n.func.id in helper_entropy and helper_entropy[n.func.id]:
                 fl.entropy += [f"helpers.{n.func.id}->{x}" for x in helper_entropy[n.func.id]]
     ctor_deref = []
-    if "__init__" in methods:
-        for n in ast.walk(methods["__init__"]):
+    for ctor in [o["__init__"] for o in (base, sub) if "__init__" in o]:
+        for n in ast.walk(ctor):
             if isinstance(n, (ast.Attribute, ast.Subscript)) and isinstance(getattr(n, "ctx", None), ast.Load):
                 v = n.value
                 if is_self_attr(v, "_config") or (isinstance(v, ast.Name) and v.id == "config"):
                     ctor_deref.append(unparse(n))
-    sc = methods.get("set_config_parameters")
+    sc = sub.get("set_config_parameters")
     canon = bool(sc and len([s for s in sc.body if not (isinstance(s, ast.Expr) and isinstance(s.value, ast.Constant))]) == 1)
     if canon:
         s0 = [s for s in sc.body if not (isinstance(s, ast.Expr) and isinstance(s.value, ast.Constant))][0]
@@ -604,8 +635,10 @@ def analyse(repo: Path) -> tuple[list[dict], list[str]]:
     he = helper_entropy(repo)
     base = ast.parse((repo / "pyvolutionary" / "abstract.py").read_text())
     BASE_METHODS.clear()
+    base_cls = None
     for c in base.body:
         if isinstance(c, ast.ClassDef) and c.name == "OptimizationAbstract":
+            base_cls = c
             BASE_METHODS.update(m.name for m in c.body if isinstance(m, ast.FunctionDef))
             BASE_METHODS.update({"name", "configuration"})
     out = []
@@ -618,7 +651,7 @@ def analyse(repo: Path) -> tuple[list[dict], list[str]]:
               "after_init": popwrites_of(methods, "after_initialization", gk),
               "before_init": popwrites_of(methods, "before_initialization", gk),
               "init_pop_overridden": "_init_population" in methods,
-              "fields": fields(cls, he), "fingerprint": fingerprint(cls)}
+              "fields": fields(cls, he, base_cls), "fingerprint": fingerprint(cls)}
         # a subclass of another optimizer inherits its methods: analyse through the parent as well (fail closed: mark irregular)
         sk["inherits_optimizer"] = [unparse(b) for b in cls.bases if unparse(b) not in ("OptimizationAbstract",) and not unparse(b).startswith("OptimizationAbstract[")]
         out.append(sk)
